@@ -51,7 +51,7 @@ def gen(rng, tier):
         text = lg.render_lexpr(sch, e, lg.Layout(rng)).encode()
         m = mutate_text(rng, text)
         if valid_utf8(m):
-            out.append(parse_case(sch, m, 128))
+            out.append(parse_case(sch, m, rng.choice([128, "default"])))
     # token soups
     for _ in range(n // 2):
         k = rng.randrange(1, 14)
@@ -61,8 +61,8 @@ def gen(rng, tier):
     # random characters
     for _ in range(n // 4):
         t = "".join(rng.choice(ALPHABET) for _ in range(rng.randrange(0, 30)))
-        out.append(parse_case(sch, t, 128))
-        out.append(parse_case(sch, t, 128, kind="parse-value"))
+        out.append(parse_case(sch, t, "default"))
+        out.append(parse_case(sch, t, "default", kind="parse-value"))
     # multi-line inputs: error line / column arithmetic
     for _ in range(n // 8):
         e = g.gen_filter()
@@ -110,7 +110,7 @@ def post(ctx):
     viol = []
 
     def run(text, stack_kb):
-        line = parse_case(sch, text, 128)
+        line = parse_case(sch, text, "default")     # the property is about default settings
         cmd = "ulimit -s %d; exec %s" % (stack_kb, vp.harness_bin())
         p = subprocess.run(["bash", "-c", cmd], input=(line + "\n").encode(), stdout=subprocess.PIPE,
                            stderr=subprocess.PIPE, timeout=600)
